@@ -1426,6 +1426,9 @@ class Store:
             # get the daughter flow
             if 'flow' in daughter and daughter['flow']:
                 flow = daughter['flow']
+            elif 'processes' in daughter or 'steps' in daughter:
+                # her own steps without a flow are legacy derivers
+                flow = {}
             else:
                 # if no flow provided, copy the mother's flow
                 mother_flow = self.get_path(mother_path).get_flow()
